@@ -41,7 +41,8 @@ TNext == /\ l <= Len(Trace)
 \* design-level obligations, evaluated once per run as ASSUME-style constants
 Lemmas == MaskLemma /\ OffRayLemma
 MaskSizes == [s \in Sq |-> <<Cardinality(RookMask(s)), Cardinality(BishopMask(s))>>]
-Done == /\ PrintT("DONE " \o ToString(Len(Trace)) \o " " \o ToString(Len(Trace)))
+Done == /\ TLCGet("stats").diameter >= 0
+        /\ PrintT("DONE " \o ToString(Len(Trace)) \o " " \o ToString(Len(Trace)))
         /\ PrintT("MASKS " \o ToJson(MaskSizes))
         /\ IF "LEMMAS" \in DOMAIN IOEnv /\ IOEnv.LEMMAS = "1" THEN PrintT("LEMMAS " \o ToString(Lemmas)) ELSE TRUE
 =============================================================================
